@@ -747,10 +747,10 @@ Section AssembledCb.
                               (- zsum (oo_vals ops ++ oc_vals ops)) [] (oo_vals ops ++ oc_vals ops)) else None)
                 [] (oo_vals ops ++ oc_vals ops) = true).
     { destruct (e_orc (env_of r)) eqn:E; cbn [andb]; [apply cb_bundle|].
-      destruct (avail_no_orchard r _ F E) as (_ & -> & ->). reflexivity. }
-    rewrite O. cbn [andb].
+      destruct (avail_no_orchard r _ F E) as (_ & Z4 & Z5). fold ops in Z4, Z5. rewrite Z4, Z5. reflexivity. }
+    rewrite O. rewrite ?lzz_refl. cbn [andb].
     destruct (e_iw (env_of r)) eqn:E; cbn [andb]; [apply cb_bundle|].
-    destruct (avail_no_ironwood r _ F E) as (_ & ->). reflexivity.
+    destruct (avail_no_ironwood r _ F E) as (_ & Z6). fold ops in Z6. rewrite Z6. reflexivity.
   Qed.
 
   Lemma cb_version : version_okb r b = true.
@@ -808,13 +808,13 @@ Proof.
     cbn [b_ver b_expiry b_lock b_branch b_dec b_sig]. repeat split; auto.
 Qed.
 
-Lemma built_version r b : build r = Ok b -> version_okb r b = true.
+Lemma built_version_std r b : r_coinbase r = false -> build r = Ok b -> version_okb r b = true.
 Proof.
-  intros H. apply build_ok_inv in H. destruct H as (hd & fee & R & _ & C & _ & -> & _).
+  intros NCB H. apply build_ok_inv in H; [|exact NCB]. destruct H as (hd & fee & R & _ & C & _ & -> & _).
   destruct (run_ops_hdr _ _ R) as (_ & _ & F).
-  destruct (sap_facts r hd fee F) as (_ & S1 & S2 & _).
-  destruct (orc_facts r hd fee F) as (_ & O & _).
-  destruct (iw_facts r hd fee F C) as (_ & _ & _ & I).
+  destruct (sap_facts r hd fee F NCB) as (_ & S1 & S2 & _).
+  destruct (orc_facts r hd fee F NCB) as (_ & O & _).
+  destruct (iw_facts r hd fee F C NCB) as (_ & _ & _ & I).
   destruct (check_version_none _ _ _ C) as (Vb & Hs & Ho & _).
   unfold version_okb. change (b_ver (assemble r hd fee)) with (fst hd).
   change (branch_at (r_net r) (r_height r)) with (e_branch (env_of r)).
@@ -841,7 +841,7 @@ Proof.
     rewrite orchard_num_actions_unused in E by assumption. discriminate.
   - destruct (b_nout (b_iw (assemble r hd fee)) =? 0) eqn:E; [reflexivity|].
     cbn [orb]. apply I. pose proof (len_nonneg (is_vals (r_ops r))).
-    destruct (iw_facts r hd fee F C) as (_ & I2 & _). rewrite I2 in *.
+    destruct (iw_facts r hd fee F C NCB) as (_ & I2 & _). rewrite I2 in *.
     unfold req_shape, shape_of in *. cbn [sh_iw] in *.
     destruct (e_iw (env_of r)); [|discriminate].
     pose proof (orchard_num_actions_ge (r_ipad r) true (len (is_vals (r_ops r))) (len (io_vals (r_ops r)))
